@@ -108,7 +108,10 @@ def gen_case(rng):
 def run_case(case, ctx, rep, pytrs):
     text, st, kw = case['text'], case['settings'], case['keywords']
     rep.set_case(case)
-    source = 'SRC-%d' % (len(text) % 7)
+    # Source tags are arbitrary identifiers: strings, row numbers (row 0
+    # included), tuples, the empty string.
+    source = ['SRC-%d' % (len(text) % 7), len(text) % 3, '', 0,
+              ('batch', len(text) % 2), (), 0.0, False][len(text) % 8]
     try:
         with cpu_timebox(20):
             with ctx.guard(case):
